@@ -16,7 +16,7 @@ RULE = (
     "the vertex objects whose ids it names irrespective of list order, and the same graph with one edge naming an unknown id raises. "
     "Non-trivial = exactly one attribute inconsistent (near miss) or a consistent combination; distinct = the combination itself."
 )
-BUDGET = {"quick": 16 * 60, "thorough": 16 * 2000}
+BUDGET = {"quick": 16 * 300, "thorough": 16 * 2000}
 TOLERANCES = {"chi2 of an accepted edge": "finite"}
 ASSUMPTIONS = [
     "validity is enforced by an assert inside Graph construction: behaviour under python -O is out of scope",
@@ -41,7 +41,7 @@ def enumerate_cases():
 
 @S.composite
 def strategy_(g):
-    case = GG.gen(g, n_pose=(2, 6), n_lm=(0, 3), n_loops=(0, 3), features=("parallel", "reversed", "permute", "ids", "custom"), custom_flavour="ana")
+    case = GG.gen(g, n_pose=(2, 6), n_lm=(0, 3), n_loops=(0, 3), features=("parallel", "reversed", "permute", "ids", "custom", "quat-signs"), custom_flavour="ana")
     case["shape"] = "graph"
     case["break_edge"] = g.rnd.randrange(10**6)
     case["break_pos"] = g.rnd.randrange(10**6)
